@@ -65,12 +65,21 @@ func ip2int(ip net.IP) uint32 {
 		return binary.BigEndian.Uint32(ip[12:16])
 	}
 
+	// an absent address (e.g. the IPv4 part of an IPv6-only IE) is nil
+	if len(ip) < 4 {
+		return 0
+	}
+
 	return binary.BigEndian.Uint32(ip)
 }
 
 func ipMask2int(ip net.IPMask) uint32 {
 	if len(ip) == 16 {
 		return binary.BigEndian.Uint32(ip[12:16])
+	}
+
+	if len(ip) < 4 {
+		return 0
 	}
 
 	return binary.BigEndian.Uint32(ip)
